@@ -105,13 +105,15 @@ Theorem C03_frame_local : forall st hdr body st' es code h payload rest, state_o
      (existsb is_close es = true /\ mx_lookup id' (cs_out st') = option_map mx_set_err (mx_lookup id' (cs_out st)))).
 Proof. exact handle_frame_local_unfolded. Qed.
 
-(* a call is dispatched only for a readable call req frame whose payload the fragment parser
-   accepts, with an id that is not in flight, on an Active connection whose exchanges have
-   not been stopped; and then it is the only effect *)
+(* a call is dispatched only for a readable call req frame whose payload parseInboundFragment
+   accepts (flags, call req header, known checksum type, checksum), with an id that is not in
+   flight, on an Active connection whose exchanges have not been stopped; and then it is the
+   only effect.  (The argument chunks are parsed by the dispatched goroutine:
+   C03_fragment_no_panic above.) *)
 Theorem C03_dispatch_only_wellformed : forall st hdr body st' es i, state_ok st -> bytes_ok body = true ->
   handle_frame st hdr body = (st', es) -> In (Dispatch i) es ->
   exists h payload rest f, frame_read_body hdr body = (0, h, payload, rest) /\ fh_type h = c_messageTypeCallReq /\ fh_id h = i /\
-    parse_frag_payload c_messageTypeCallReq payload = (0, f) /\
+    parse_inbound_fragment payload = (0, f) /\
     cs_state st = c_connectionActive /\ cs_stopped st = false /\ mx_lookup i (cs_in st) = None /\ es = [Dispatch i].
 Proof. exact handle_frame_dispatch. Qed.
 
@@ -150,9 +152,9 @@ Example C03_example_declined :
   snd (handle_frame (mkCS c_connectionStartClose [(5, mx_new)] [] false 8 false) (ex_hdr (16 + zlen ex_callreq) 3 7) ex_callreq)
   = [SendFrame c_messageTypeError 7 c_ErrCodeDeclined].
 Proof. vm_compute. reflexivity. Qed.
-(* ... truncated by one byte it is dropped; an unknown message type is dropped; a size field below the header size closes *)
+(* ... cut inside the call req header it is dropped; an unknown message type is dropped; a size field below the header size closes *)
 Example C03_example_dropped :
-  snd (handle_frame (ex_active []) (ex_hdr (15 + zlen ex_callreq) 3 7) (removelast ex_callreq)) = [Drop]
+  snd (handle_frame (ex_active []) (ex_hdr (16 + 33) 3 7) (firstn 33 ex_callreq)) = [Drop]
   /\ snd (handle_frame (ex_active []) (ex_hdr 18 0x77 7) [1; 2]) = [Drop]
   /\ snd (handle_frame (ex_active []) (ex_hdr 15 3 7) ex_callreq) = [CloseConn].
 Proof. vm_compute. repeat split; reflexivity. Qed.
